@@ -380,6 +380,11 @@ class Merger:
                 prefix="Merger::_merge_arrays_of_hashes:  ", data=ele)
 
             if merge_mode is AoHMergeOpts.DEEP:
+                if not isinstance(ele, CommentedMap):
+                    raise MergeException(
+                        "Impossible to deeply merge a non-Hash element of an"
+                        " Array-of-Hashes.", path_next)
+
                 if id_key in ele:
                     id_val = Nodes.tagless_value(ele[id_key])
                 else:
@@ -446,6 +451,9 @@ class Merger:
             return self._merge_simple_lists(lhs, rhs, path, node_coord)
 
         # No RHS list
+        if not isinstance(lhs, CommentedSeq):
+            raise MergeException(
+                "Impossible to add Array data to non-Array destination.", path)
         return lhs
 
     def _merge_sets(
@@ -468,6 +476,10 @@ class Merger:
         Raises:
         - `MergeException` when a clean merge is impossible.
         """
+        if not isinstance(lhs, CommentedSet):
+            raise MergeException(
+                "Impossible to add Set data to non-Set destination.", path)
+
         merge_mode = self.config.set_merge_mode(node_coord)
         if merge_mode is SetMergeOpts.LEFT:
             return lhs
@@ -635,6 +647,10 @@ class Merger:
                 " source Hash because only the keys would be"
                 " preserved.  Please adjust your merge to target a"
                 " suitable node.", insert_at)
+        elif not isinstance(lhs, CommentedMap):
+            raise MergeException(
+                "Impossible to add Hash data to non-Hash destination.",
+                insert_at)
         else:
             # Merge a dict into a dict
             self.logger.debug(
@@ -690,7 +706,12 @@ class Merger:
                 "Merger::_insert_list:  Merging a list into a set.")
             mset = CommentedSet()
             for ele in rhs:
-                mset.add(ele)
+                try:
+                    mset.add(ele)
+                except TypeError as ex:
+                    raise MergeException(
+                        "Impossible to add non-Scalar Array elements to a Set."
+                        , insert_at) from ex
             merged_data = self._merge_sets(
                 lhs, mset, insert_at, NodeCoords(rhs, None, None))
             merge_performed = True
